@@ -56,7 +56,7 @@ impl Indexable for StructExpr {
     fn index(&self, index: Expression) -> Option<Expression> {
         // numeric indices represent the index of the field of the struct
         match index {
-            Expression::Number(n) => self.fields.get(n as usize).cloned(),
+            Expression::Number(n) => self.fields.get(usize::try_from(n).ok()?).cloned(),
             _ => return None,
         }
     }
@@ -70,7 +70,7 @@ impl Indexable for Expression {
                 .iter()
                 .find(|(k, _)| *k == index)
                 .map(|(k, v)| Expression::Tuple(Box::new((k.clone(), v.clone())))),
-            Expression::List(x) => x.get(index.as_number()? as usize).cloned(),
+            Expression::List(x) => x.get(usize::try_from(index.as_number()?).ok()?).cloned(),
             Expression::Tuple(x) => match index.as_number()? {
                 0 => Some(x.0.clone()),
                 1 => Some(x.1.clone()),
